@@ -390,7 +390,18 @@ def run_worker(pid, tier, seed, worker, nworkers, replay_case=None):
                         ctx.notes.append("example %s raised %r" % (fid, exc))
                     if ctx.known[fid] == before:
                         ctx.notes.append("STALE-KNOWN-FINDING %s" % fid)
-            mod.workload(ctx, repo)
+            try:
+                mod.workload(ctx, repo)
+            except BudgetExceeded:
+                raise
+            except Exception as exc:
+                # an exception escaping the code under observation on a
+                # workload case (all cases are valid by construction)
+                ctx.violation(
+                    "workload.raised", "the workload case raised %s: %s\n%s"
+                    % (type(exc).__name__, exc,
+                       "".join(traceback.format_exc(limit=-6))),
+                    exc=type(exc).__name__)
         if hasattr(mod, "finish"):
             mod.finish(ctx, repo)
     finally:
@@ -476,8 +487,11 @@ def fan_out(pid, tier, seed, nworkers, timeout):
 
 def finish(pid, tier, seed, merged, mod, t0):
     """Print verdict lines, write evidence and replays; return exit code."""
-    os.makedirs(os.path.join(VERIF, "evidence"), exist_ok=True)
-    os.makedirs(os.path.join(VERIF, "replays"), exist_ok=True)
+    # VERIF_OUT redirects evidence/replays (used when trying the checks on
+    # seeded changes, so that committed evidence is never overwritten)
+    out_base = os.environ.get("VERIF_OUT") or VERIF
+    os.makedirs(os.path.join(out_base, "evidence"), exist_ok=True)
+    os.makedirs(os.path.join(out_base, "replays"), exist_ok=True)
     listed = {fid: what for fid, (p, what) in read_known_findings().items()
               if p == pid}
     # inconclusive conditions shared by all checks
@@ -501,7 +515,7 @@ def finish(pid, tier, seed, merged, mod, t0):
     nviol = sum(merged["viol_kinds"].values())
     replay_paths = []
     for i, wit in enumerate(merged["violations"][:Ctx.MAX_REPLAYS]):
-        path = os.path.join(VERIF, "replays",
+        path = os.path.join(out_base, "replays",
                             "%s-%d-%d.json" % (pid, seed, i))
         with open(path, "w") as fh:
             json.dump({"property": pid, "seed": seed, "tier": tier,
@@ -558,7 +572,8 @@ def finish(pid, tier, seed, merged, mod, t0):
         "wall_s": round(time.time() - t0, 2),
         "violations": int(nviol),
     }
-    with open(os.path.join(VERIF, "evidence", "%s.json" % pid), "w") as fh:
+    with open(os.path.join(out_base, "evidence", "%s.json" % pid),
+              "w") as fh:
         json.dump(ev, fh, indent=1, default=repr)
     print("%s %s tier=%s seed=%d evaluations=%d distinct_nontrivial=%d "
           "classes=%d/%d wall=%.1fs" % (
